@@ -1,4 +1,4 @@
-import Req.Lemmas.C03H3Head
+import Req.Lemmas.C03H3Bridge
 /-!
 C03 — HTTP/3: a truncated, over-long or spliced body is never reported as success; a dead
 connection is not reused.
@@ -209,6 +209,19 @@ theorem h3_interim_transparent (fuel n1xx : Nat) (s : H3Stream) :
     (H3Stream.readFinalResponse fuel n1xx s).2.net.fin = s.net.fin :=
   let h := readFinalResponse_same fuel n1xx s
   ⟨h.remInFrame, h.parsedTrailer, h.fin⟩
+
+/-- **h3_repaired_refines_original.** The body reader these theorems are about (with the
+truncated-frame rule of fixes/C03-3) against the original reader of C02, which C02's lane
+`c02h3recv` ties to the code byte by byte: for every stream, segmentation and read sizes the two
+runs make the same reads and hand out the same bytes in the same pieces; only the error of the
+LAST read may differ — `io.ErrUnexpectedEOF` where the original says `io.EOF` (a truncated frame),
+or another non-EOF error for a non-EOF error (a SETTINGS frame is read before it is refused). -/
+theorem h3_repaired_refines_original (b : H3Body) (ks : List Nat) :
+    (b.runReads ks).1.map (·.1) = (bodyRunR b ks).1.map (·.1) ∧
+    (lastErr (b.runReads ks).1 = lastErr (bodyRunR b ks).1 ∨
+      ∃ e e', lastErr (b.runReads ks).1 = some e ∧ lastErr (bodyRunR b ks).1 = some e' ∧
+        (e' = e ∨ (e = .eof ∧ e' = .unexpectedEOF) ∨ (e ≠ .eof ∧ e' ≠ .eof))) :=
+  run_bridge b ks
 
 /-! ### the cached connection -/
 
